@@ -10,6 +10,7 @@ import (
 	"runtime"
 	"strings"
 	"sync"
+	"time"
 
 	protocol "github.com/hujm2023/go-sms-protocol"
 	"github.com/hujm2023/go-sms-protocol/cmpp"
@@ -1110,6 +1111,12 @@ func runHistories(r *core.Run, prop string) {
 	// ---- the simulated pass
 	lc, restoreLog := captureLog()
 	defer restoreLog()
+	// a deployment's log level (a function of the run index, so that no tape entry moves): results do not depend on it
+	if r.Cfg.Index%4 == 3 {
+		logger.SetLevel(logger.Level(1 + (r.Cfg.Index/4)%6))
+		defer logger.SetLevel(logger.LevelTrace)
+		r.Probe("log_level_raised")
+	}
 	defer func() {
 		if ln := lc.bad(); ln != "" {
 			r.Fail(prop, "log-line", "logger", "level", "a log line carries the level of another call: %q", strings.TrimSpace(ln))
@@ -1236,6 +1243,26 @@ func runHistories(r *core.Run, prop string) {
 // detector. It returns a description of the first result that differs from
 // the sequential pass, or "".
 func RaceWorkload(seed uint64, idx uint64, cold bool) (mismatch string, tasks, ops int) {
+	// "all tasks finish": a workload takes well under a second; one whose tasks (or whose clean-up, which goes through
+	// the library's logger) have not returned after two minutes of real time never will
+	type res struct {
+		m      string
+		nt, no int
+	}
+	ch := make(chan res, 1)
+	go func() {
+		m, nt, no := raceWorkload(seed, idx, cold)
+		ch <- res{m, nt, no}
+	}()
+	select {
+	case x := <-ch:
+		return x.m, x.nt, x.no
+	case <-time.After(120 * time.Second):
+		return "the tasks of this workload never finish: after 120 s of real time the workload has not returned (a call blocks for good)", 0, 0
+	}
+}
+
+func raceWorkload(seed uint64, idx uint64, cold bool) (mismatch string, tasks, ops int) {
 	c := core.NewSeedChooser(core.Mix(seed, "C13/race", idx))
 	r := core.NewRun(c, core.Config{Property: "C13", Scenario: "concurrent", Mode: "race"}, nil)
 	r.Quiet = true // no harness locks or atomics between the tasks' library calls
@@ -1308,6 +1335,10 @@ func RaceWorkload(seed uint64, idx uint64, cold bool) (mismatch string, tasks, o
 	defer func() { verifhook.YieldFn = nil }()
 	lc, restoreLog := captureLog()
 	defer restoreLog()
+	if core.Mix(seed, "loglevel", idx)%4 == 3 {
+		logger.SetLevel(logger.Level(1 + core.Mix(seed, "loglevel2", idx)%6))
+		defer logger.SetLevel(logger.LevelTrace)
+	}
 	var wg sync.WaitGroup
 	var mu sync.Mutex
 	start := make(chan struct{})
